@@ -17,7 +17,7 @@ from typing import Any
 from vf import tlc
 from vf.evidence import MachineryFailure
 
-_RE = re.compile(r'<<"REC",\s*(\d+),\s*"([^"]*)"(?:,\s*(.*?))?>>', re.S)
+_RE = re.compile(r'<<\s*"REC",\s*(\d+),\s*"([^"]*)"(?:,\s*(.*?))?\s*>>', re.S)
 
 
 def _one(module: str, recs: list[Any], nc: int, workers: int, constants: str, timeout: float) -> tuple[dict[int, str], Any]:
